@@ -851,6 +851,9 @@ func (e *Engine) feasible(st *State, c *Term) (bool, bool) {
 		return true, true
 	}
 	// the path condition is satisfiable (invariant of every live state), so if one side is infeasible the other is feasible
+	if qsitesOn && len(st.frames) > 0 {
+		qsites["fn:"+st.top().fn.String()]++
+	}
 	t := e.S.Check(st.pc, c) != Unsat
 	e.S.EndModel()
 	if !t {
